@@ -28,6 +28,7 @@ func main() {
 		vlib.Group{Name: "extract-dst", Gen: genExtractDst},
 		vlib.Group{Name: "reuse", Gen: genReuse},
 		vlib.Group{Name: "failed-refactorize", Gen: genFailedRefactorize},
+		vlib.Group{Name: "into-receivers", Gen: genInto},
 		vlib.Group{Name: "live-objects", Gen: genLive},
 		vlib.Group{Name: "grow-update", Gen: genGrowUpdate},
 		vlib.Group{Name: "grow-receiver", Gen: genGrowRecv},
